@@ -220,6 +220,18 @@ func runC16(c *Ctx) {
 	recoveryHeightAgreement(c, "R5")
 	c.Rule("R6", "a restore replaces the directory's content (old write-ahead logs are not kept)", 1)
 	restoreDropsOldLogs(c, "R6")
+	// A backup copies the table files and the write-ahead log as they are at one instant, and it is
+	// serialised against nothing but the node lock, which the FSM does not take. What it captures is
+	// a prefix of the log only if (a) an applied bulk reaches the store in one atomic write and
+	// (b) no write bypasses the write-ahead log (Backup does not flush memtables).
+	c.Rule("R7", "what a backup captures is a whole number of applied bulks: one atomic store write per bulk, none bypassing the write-ahead log", 8)
+	{
+		sub := newSub(c, "R7")
+		_, applyAdd := fsmApplyGuard(sub, "R4")
+		fsmApplyAdd(sub, "R1", applyAdd)
+		rocksMutate(sub, "R3")
+		walNeverDisabled(c, "R7")
+	}
 }
 
 // decimalOf: t renders an integer in decimal — Sprintf("%d", v), Sprint(v), strconv.FormatUint/FormatInt(v, 10), strconv.Itoa(v).
